@@ -23,6 +23,8 @@ func init() {
 			c.min("R-SORTEDSEARCH", 1)
 			c.ruleGhostConstrain()
 			c.min("R-GHOSTCONSTRAIN", 1)
+			c.rulePhaseConsistent()
+			c.min("R-PHASECONSIST", 3)
 			c.ruleRoundRecompute()
 			c.min("R-RECOMPUTE", 6)
 			c.ruleWeightSub(map[string]bool{
